@@ -281,7 +281,7 @@ class Interp:
                     names = None
                     if h.type is not None:
                         names = {norm(e) for e in (h.type.elts if isinstance(h.type, ast.Tuple) else [h.type])}
-                    if names is None or sig.cls in names or 'Exception' in names:
+                    if names is None or self.exc_matches(sig.cls, names):
                         if h.name:
                             env[h.name] = Sym('exc', sig.cls, sig.args_)
                         try:
@@ -802,6 +802,18 @@ class Interp:
                 self.bad(e, 'set of non-constant items')
             return ASet(items)
         self.bad(e, f'expression kind {type(e).__name__} outside the interpreted subset')
+
+    @staticmethod
+    def exc_matches(cls, names):
+        """does an exception of class `cls` match an except clause / isinstance test naming `names` (host exception hierarchy)"""
+        from .raises import is_subclass
+        if cls == '<reraise>':
+            return False
+        for n in names:
+            for cand in {n, n.rsplit('.', 1)[-1]}:
+                if is_subclass(cls, cand) or is_subclass(cls.rsplit('.', 1)[-1], cand):
+                    return True
+        return False
 
     def comp(self, e, ix, env, out):
         if ix == len(e.generators):
@@ -1601,14 +1613,14 @@ class Interp:
         if name == 'isinstance':
             if isinstance(args[0], Sym) and args[0].kind == 'exc':
                 classes = [norm(x) for x in (e.args[1].elts if isinstance(e.args[1], ast.Tuple) else [e.args[1]])]
-                return args[0].args[0] in classes or 'Exception' in classes or 'BaseException' in classes
+                return self.exc_matches(args[0].args[0], classes)
             if isinstance(args[0], Sym):
                 raise Unrecognised(self.rule, 'isinstance on a symbolic value', self.mod.rel)
             v = args[0]
             classes = self.class_names(e.args[1], args[1] if len(args) > 1 else None)
             table = {'str': isinstance(v, (str, ALine)), 'dict': isinstance(v, ADict), 'list': isinstance(v, AList), 'int': isinstance(v, int),
-                     'float': isinstance(v, float), 'bool': isinstance(v, bool), 'complex': False, 'tuple': isinstance(v, tuple)}
-            concrete = v is None or isinstance(v, (int, float, str, bool, ADict, AList, tuple))
+                     'float': isinstance(v, float), 'bool': isinstance(v, bool), 'complex': isinstance(v, complex), 'tuple': isinstance(v, tuple)}
+            concrete = v is None or isinstance(v, (int, float, str, bool, ADict, AList, tuple, complex))
             res = False
             for cls in classes:
                 if cls in table:
